@@ -27,7 +27,7 @@ MASS_T = {1: 0.4, 2: 3e-2, 4: 1.5e-3, 8: 3e-5}
 
 
 def cases(tier, seed):
-    n = 200 if tier == "quick" else 7200
+    n = 200 if tier == "quick" else 21600
     return [{"seed": seed, "idx": i} for i in range(n)]
 
 
